@@ -15,7 +15,11 @@ use native_tls::{Error, HandshakeError, MidHandshakeTlsStream};
 use super::common::AllowStd;
 
 #[derive(Debug)]
-pub struct TlsStream<S>(native_tls::TlsStream<AllowStd<S>>);
+pub struct TlsStream<S>(
+    native_tls::TlsStream<AllowStd<S>>,
+    // `close_notify` has been handed to the underlying stream
+    bool,
+);
 
 #[derive(Clone)]
 pub struct TlsConnector(native_tls::TlsConnector);
@@ -121,7 +125,14 @@ where
     }
 
     fn poll_close(mut self: Pin<&mut Self>, ctx: &mut Context<'_>) -> Poll<io::Result<()>> {
-        self.with_context(ctx, |s| s.shutdown())
+        // `shutdown` writes `close_notify` and then flushes the underlying stream,
+        // but the engine ignores a flush that does not complete at once. Keep
+        // flushing until the alert has left, without sending it a second time.
+        if !self.1 {
+            std::task::ready!(self.with_context(ctx, |s| s.shutdown()))?;
+            self.1 = true;
+        }
+        self.with_context(ctx, |s| s.flush())
     }
 }
 
@@ -171,7 +182,7 @@ where
                 #[cfg(compio_verif)]
                 crate::verif::emit(crate::verif::HS_START, 0, 0, 0);
                 s.get_mut().clear_context();
-                Poll::Ready(Ok(StartedHandshake::Done(TlsStream(s))))
+                Poll::Ready(Ok(StartedHandshake::Done(TlsStream(s, false))))
             }
             Err(HandshakeError::WouldBlock(mut s)) => {
                 #[cfg(compio_verif)]
@@ -239,7 +250,7 @@ impl<S: AsyncRead + AsyncWrite + Unpin> Future for MidHandshake<S> {
                 #[cfg(compio_verif)]
                 crate::verif::emit(crate::verif::HS_MID, 0, 0, 0);
                 s.get_mut().clear_context();
-                Poll::Ready(Ok(TlsStream(s)))
+                Poll::Ready(Ok(TlsStream(s, false)))
             }
             Err(HandshakeError::WouldBlock(mut s)) => {
                 #[cfg(compio_verif)]
